@@ -41,7 +41,7 @@ def run(res, ctx):
     for fs in sets:
         label = '+'.join(fs) or 'default'
         profile = 'dev' if 'debug_asserts' in fs else 'release'
-        binp = core.build_harness(res, fs, profile=profile)
+        binp = core.build_harness(res, fs, profile=profile, shapes_written=True)
         if binp is None:
             res.corr['impl_failures'].append({'request': 'cargo build --features ' + ','.join(fs), 'features': label,
                                               'what': f'the crate (library + derive output for the shape catalogue) does not compile under features [{label}]',
